@@ -1033,7 +1033,7 @@ def theorem_scope(op):
     if any(p is None for p in ps):
         return "outside:invalid-key"
     name = op["op"]
-    if name in PROVED_KINDS or name in ("flatten", "unflatten"):
+    if name in PROVED_KINDS or name in ("flatten", "unflatten") or (name == "split" and not (op["inplace"] and prefix_related(ps))):
         if name == "rename" and op["safe"] and len(ps[0]) < len(ps[1]) and ps[1][:len(ps[0])] == ps[0]:
             return "outside:safe-rename-into-own-subtree"
         return "proved:C04_refine_step"
